@@ -826,6 +826,9 @@ func main() {
 		sessionCase(o, i)
 	}
 
+	// ---------------------------------------------------------------- column-name alphabets (systematic, seed-independent)
+	nameVariantCases(o, pm)
+
 	// ---------------------------------------------------------------- one handle, many calls
 	for i := 0; i < n; i++ {
 		querySeqCase(o, i)
@@ -1463,5 +1466,150 @@ func batchSeqCase(o *hlib.Out, i int) {
 	get()
 	if got := o.Case("batch-handle-sequence", true, fmt.Sprintf("CBatchSeq %s %s %s", t.static, hlib.List(ops), hlib.List(outs))); got != idx {
 		panic("harness: case index drifted")
+	}
+}
+
+// ---- identifier alphabets on the pre-v4 metadata path: quoted CQL identifiers are case-sensitive, so a bound
+// column whose name differs from a partition-key column only by case, by a prefix/suffix or by a Unicode
+// case-folding twin is ANOTHER column. Systematic (no PRNG): every run contains these cases.
+func nameVariants(nm string) []string {
+	seen := map[string]bool{nm: true}
+	var out []string
+	add := func(v string) {
+		if v != "" && !seen[v] {
+			seen[v] = true
+			out = append(out, v)
+		}
+	}
+	add(strings.ToUpper(nm))
+	add(strings.ToLower(nm))
+	add(strings.ToUpper(nm[:1]) + nm[1:])
+	add(nm + "x")
+	add(nm[:len(nm)-1])
+	add(" " + nm)
+	add(nm + " ")
+	add(strings.Replace(nm, "k", "\u212a", 1)) // KELVIN SIGN folds to k
+	add(strings.Replace(nm, "s", "\u017f", 1)) // LONG S folds to s
+	return out
+}
+
+func nameVariantCases(o *hlib.Out, pm gocql.VerifC09Partitioner) {
+	pkSets := [][]string{{"id"}, {"Id"}, {"key", "KEY"}, {"ab", "a"}, {"ks", "bucket"}}
+	caseNo := 0
+	for _, pk := range pkSets {
+		type bcol struct {
+			name string
+			typ  gocql.TypeInfo
+			val  interface{}
+		}
+		var keyCols, decoys []bcol
+		isPK := map[string]bool{}
+		for k, nm := range pk {
+			isPK[nm] = true
+			keyCols = append(keyCols, bcol{nm, nt(gocql.TypeInt), int32(1000 + 7*k)})
+		}
+		for k, nm := range pk {
+			for j, v := range nameVariants(nm) {
+				if !isPK[v] {
+					isPK[v] = true // also: no decoy twice
+					decoys = append(decoys, bcol{v, nt(gocql.TypeVarchar), fmt.Sprintf("decoy-%d-%d", k, j)})
+				}
+			}
+		}
+		for k := range pk {
+			isPK[pk[k]] = true
+		}
+		rev := func(c []bcol) []bcol {
+			out := make([]bcol, len(c))
+			for i := range c {
+				out[len(c)-1-i] = c[i]
+			}
+			return out
+		}
+		var interleaved []bcol
+		for i := 0; i < len(decoys) || i < len(keyCols); i++ {
+			if i < len(decoys) {
+				interleaved = append(interleaved, decoys[i])
+			}
+			if i < len(keyCols) {
+				interleaved = append(interleaved, keyCols[len(keyCols)-1-i])
+			}
+		}
+		orders := [][]bcol{
+			append(append([]bcol{}, decoys...), keyCols...), // SET "ID" = ? ... WHERE id = ?
+			append(append([]bcol{}, keyCols...), decoys...), // key columns first
+			interleaved, // mixed, key columns in reverse
+			append(append([]bcol{}, rev(decoys)...), keyCols[1:]...), // first key column not bound, its twins are: no key
+		}
+		for oi, cols := range orders {
+			caseNo++
+			stmt := fmt.Sprintf("UPDATE t SET names%d = ?", caseNo)
+			names := make([]string, len(cols))
+			cinfo := make([]gocql.ColumnInfo, len(cols))
+			vals := make([]interface{}, len(cols))
+			per := make([]mres, len(cols))
+			for k, c := range cols {
+				names[k], vals[k] = c.name, c.val
+				cinfo[k] = gocql.ColumnInfo{Keyspace: "ks", Table: "t", Name: c.name, TypeInfo: c.typ}
+				per[k] = marshal(c.typ, c.val)
+			}
+			tm := &gocql.TableMetadata{Keyspace: "ks", Name: "t"}
+			for k, nm := range pk {
+				tm.PartitionKey = append(tm.PartitionKey, &gocql.ColumnMetadata{Keyspace: "ks", Table: "t", Name: nm, ComponentIndex: k, Type: nt(gocql.TypeInt)})
+			}
+			km := &gocql.KeyspaceMetadata{Name: "ks", Tables: map[string]*gocql.TableMetadata{"t": tm}}
+			mk := func() *gocql.Session {
+				return gocql.VerifC09NewSession([]gocql.VerifC09Prepared{{Stmt: stmt, ColCount: len(cols), Columns: cinfo, Keyspace: "ks", Table: "t"}}, []*gocql.KeyspaceMetadata{km})
+			}
+			// the property's reading: exact (byte-for-byte) name match, first marker wins
+			var serial [][]byte
+			bound := true
+			for _, nm := range pk {
+				found := false
+				for k := range cols {
+					if names[k] == nm {
+						serial = append(serial, per[k].b)
+						found = true
+						break
+					}
+				}
+				bound = bound && found
+			}
+			common := fmt.Sprintf("%s %s [] false %s %s %s", hlib.Z(int64(len(cols))), strLists(names), hlib.Some(strLists(pk)), perTerm(per), hlib.Z(int64(len(vals))))
+			monitor := func(idx int, what string, b []byte, err error, pan bool) {
+				if !bound {
+					if pan || err != nil || b != nil {
+						o.Violate(idx, "routing-key-column-name", "", fmt.Sprintf("%s: partition key column %q is not bound (only look-alikes %q are), yet a routing key %x (err %v, panic %v) was built", what, pk[0], names, b, err, pan), nil)
+					}
+					return
+				}
+				n0 := len(o.Violations)
+				routingMonitor(o, idx, serial, b, err, pan)
+				for k := n0; k < len(o.Violations); k++ {
+					o.Violations[k].Kind = "routing-key-column-name"
+					o.Violations[k].Detail = fmt.Sprintf("%s: partition key %q, bound columns %q (names match only when identical): %s", what, pk, names, o.Violations[k].Detail)
+				}
+				if n0 == len(o.Violations) && len(b) > 0 {
+					if _, tok, _, _ := pm.Hash(b).Raw(); tok != cassMurmurToken(cassPartitionKey(serial)) {
+						o.Violate(idx, "routing-token-column-name", "", fmt.Sprintf("%s: token %d, Cassandra's token for the addressed partition is %d", what, tok, cassMurmurToken(cassPartitionKey(serial))), nil)
+					}
+				}
+			}
+			{
+				q := mk().Query(stmt, vals...)
+				b, err, pan := guarded(q.GetRoutingKey)
+				idx := o.Case("query-name-variants", true, fmt.Sprintf("CGetRK None false %s %s", common, rkTerm(b, err, pan)))
+				retain(idx, b)
+				monitor(idx, fmt.Sprintf("Query, order %d", oi), b, err, pan)
+			}
+			{
+				bt := mk().NewBatch(gocql.LoggedBatch)
+				bt.Query(stmt, vals...)
+				b, err, pan := guarded(bt.GetRoutingKey)
+				idx := o.Case("batch-name-variants", true, fmt.Sprintf("CBatchRK None true false %s %s", common, rkTerm(b, err, pan)))
+				retain(idx, b)
+				monitor(idx, fmt.Sprintf("Batch, order %d", oi), b, err, pan)
+			}
+		}
 	}
 }
